@@ -18,7 +18,9 @@ MANIFEST = {
             "aligned, inside their block, never in the padding granule (live_spans_disjoint, live_span_wellformed, alloc_span_fresh); "
             "allocation succeeds with size >= request (alloc_ok); release frees exactly the span (release_ok); query of any address of a "
             "live span returns exactly that span (query_exact); allocation_count = number of live spans (allocation_count_exact); free "
-            "memory is reused: no new block while a block of the serving pool has room, wherever the gap is (free_memory_reused); unknown "
+            "memory is reused: no new block while a block of the serving pool has room, wherever the gap is (free_memory_reused); per-pool "
+            "block count / reserved / used totals are exact (pool_totals_exact); at most one empty block per pool, none with immediate "
+            "release, and a block is flagged empty iff it holds no span (retention_policy, empty_flag_iff_no_spans); unknown "
             "blocks and stale spans are rejected without state change; reset leaves nothing accounted; is_initialized is true. The model is "
             "tied to the real code by running both on bounded-exhaustive and seeded random histories (all option sets, granularities, block "
             "sizes) comparing every answer, the statistics after every operation and the private block state; Spec/JitAlloc.lean "
@@ -28,8 +30,8 @@ MANIFEST = {
             "the harness/driver/diff. OS behaviour is only tested (mmap/dual mapping give fresh page-aligned disjoint ranges, rw aliases rx; the "
             "harness checks both on every block), large pages are never granted in the sandbox, thread safety is C11. The RB tree lookup is "
             "modelled as lookup by block id (C18). Sizes near 2^64 (overflow exits) are not modelled. Memory is modelled per granule "
-            "(whole-granule writes only). Proved only partially: pool totals (used/reserved/block count as sums), the retention policy and "
-            "memory contents / fill pattern are covered by the correspondence and the monitor, not by theorems.",
+            "(whole-granule writes only). Not proved (covered by the correspondence and the monitor only): memory contents / fill pattern, "
+            "the final summation of statistics() over the pools.",
 }
 MODS = ["AsmjitVerif.Props.C09"]
 
@@ -253,7 +255,9 @@ def shrink_history(runner, hist, kind, key):
                 return True
         return False
 
-    small = vlib.ddmin(body, fails, max_tests=250)
+    if len(body) <= 12:          # already a minimal witness (corpus entries, bounded-exhaustive histories)
+        return hist
+    small = vlib.ddmin(body, fails, max_tests=100)
     return [cfg] + small
 
 
@@ -264,7 +268,7 @@ def run_batch(runner, hists):
     pending = list(hists)
     impl_all, lines_all = [], []
     guard = 0
-    while pending and guard < 12:
+    while pending and guard < 4:
         guard += 1
         flat, owner = [], []
         for k, hst in enumerate(pending):
@@ -385,6 +389,9 @@ def run(res):
         return
     h = vlib.build_harness("c09")
     runner = Runner(h)
+    import time as _t
+    t0 = _t.time()
+    vlib.log("[c09] proofs + builds done at %.0fs" % (t0 - res.t0))
 
     hists, nex, nrand = build_histories(res, rng)
     # corpus of past failures first
@@ -403,6 +410,7 @@ def run(res):
     with ThreadPoolExecutor(njobs) as ex:
         results = list(ex.map(lambda b: run_batch(runner, b), buckets))
 
+    vlib.log("[c09] %d histories run in %.0fs" % (len(hists), _t.time() - t0))
     findings, answers = [], {}
     nlines = 0
     samples = []
@@ -476,6 +484,7 @@ def run(res):
                           "every explored history" % (small[min(at, len(small) - 1)], str(d[-2])[:300], str(d[-1])[:300]),
                           {"ops": small, "impl": str(d[-2])[:2000], "model": str(d[-1])[:2000], "unchecked": "correspondence Model/JitAlloc.lean ~ jitallocator.cpp"},
                           False, key="corr")
+    vlib.log("[c09] classification + shrinking done at %.0fs" % (_t.time() - res.t0))
     if broken and not res.violations:
         res.violation("proof obligation no longer checks: " + " | ".join(broken)[:1500], {"unchecked": broken}, False, key="obligation")
     res.notes.append("findings by class: %s" % {k: sum(1 for f in findings if (f[0] if f[0] != "bad" else bad_key(f[3])) == k) for k in
